@@ -210,6 +210,9 @@ pub fn valid_objects(w: &World, sid1: u128) -> Vec<Valid> {
     };
     let (ra, pa) = resp(sid1, 0, &[0, 1, 2]); // init (carries policy bytes), b, c
     let (rb, pb) = resp(sid2, 1, &[3]);
+    // the in-sequence successors of `ra` (accepted after one response has been received)
+    let (rc, pc) = resp(sid1, 1, &[3, 4]);
+    let (rd, pd) = resp(sid1, 1, &[1]);
     let poll = |r: WReq| WType::Poll { request: r };
     let ty = |t: &WType, p: &[u8]| Spans::of_type(t, p);
     let d = Duration::new;
@@ -245,6 +248,7 @@ pub fn valid_objects(w: &World, sid1: u128) -> Vec<Valid> {
             b: ty(&poll(WReq::EndSession { session_id: sid2 }), &[]),
         },
         Valid { kind: "response", family: Family::Resp, a: Spans::of_resp(&ra, &pa), b: Spans::of_resp(&rb, &pb) },
+        Valid { kind: "response-next", family: Family::Resp, a: Spans::of_resp(&rc, &pc), b: Spans::of_resp(&rd, &pd) },
         Valid {
             kind: "end",
             family: Family::Resp,
@@ -996,7 +1000,7 @@ pub fn run(args: &Args) {
         rep.outcome(k, *v);
     }
     rep.sample(json!({"valid poll-request": mcx::hex(&valids[0].a.bytes), "fields": valids[0].a.fields.iter().map(|f| f.name.clone()).collect::<Vec<_>>()}));
-    rep.sample(json!({"valid response (3 commands + payload)": mcx::hex(&valids[5].a.bytes)}));
+    rep.sample(json!({"valid response (3 commands + payload)": mcx::hex(&valids.iter().find(|v| v.kind == "response").expect("response").a.bytes)}));
     for (clause, (n, input, desc, name)) in &tally.faults {
         rep.violation(
             format!("{clause} [min input {}]", mcx::hex(input)),
